@@ -53,9 +53,8 @@ def input_hash(repo):
         p = os.path.join(lib_dir(repo), f)
         h.append(f)
         h.append(read(p, 'rb') if os.path.exists(p) else b'<missing>')
-    for f in sorted(os.listdir(HERE)):
-        if f.endswith('.py') and f != 'validate.py':
-            h.append(read(os.path.join(HERE, f), 'rb'))
+    for f in ('cpp2v.py', 'trans.py', 'ir.py', 'targets.py'):      # the translator itself
+        h.append(read(os.path.join(HERE, f), 'rb'))
     return sha(*h)
 
 
